@@ -1,8 +1,8 @@
 import GV.Lib.Line
 import GV.Model.ValueConservation
 /-
-  op:  vc <era> <kd> <pd> <dd> <fee> <mint> <zmint> <don> item*      (see harness/c27.go)
-  out: vc=<ok|vnc|baddep> bad=<0|1>
+  op:  vc <era> <valid> <kd> <pd> <dd> <fee> <don> item*      (see harness/c27.go)
+  out: vc=<ok|vnc|baddep> bad=<0|1> dep=<0|1>  |  decode-err
 -/
 namespace GV.Drv.C27
 open GV.Line GV.Model.ValueConservation
@@ -18,6 +18,29 @@ structure Acc where
   wds : List Nat := []
   certs : List Cert := []
   props : List Nat := []
+  mint : Option MintBundle := none
+  coll : List In := []
+  collRet : Option GV.Model.ValueConservation.Out := none
+  totalColl : Option Nat := none
+  bad : Bool := false
+
+def parseEntriesInt : List String → Option (List (Nat × Int))
+  | [] => some []
+  | e :: rest =>
+    match e.splitOn "=" with
+    | [i, q] => do
+      let i ← parseNat? i; let q ← parseInt? q
+      let r ← parseEntriesInt rest
+      if i > 60 || r.any (·.1 == i) then none else pure ((i, q) :: r)
+    | _ => none
+
+def parseMint (s : String) : Option MintBundle :=
+  if s = "-" then some [] else parseEntriesInt (s.splitOn ",")
+
+def parseBundle (s : String) : Option Bundle := do
+  let m ← parseMint s
+  if m.any (fun e => e.2 < 0 || e.2 > 18446744073709551615) then none
+  else pure (m.map (fun e => (e.1, e.2.toNat)))
 
 def parseCert (p : List String) : Option Cert :=
   match p with
@@ -35,17 +58,32 @@ def parseCert (p : List String) : Option Cert :=
   | ["dunreg", a, r] => do let a ← parseNat? a; let r ← parseNat? r; pure (.dunreg a r)
   | _ => none
 
+def parseRes (r : String) : Option Bool :=
+  if r = "r" then some true else if r = "u" then some false else none
+
 def parseItems : List String → Acc → Option Acc
   | [], acc => some acc
   | it :: rest, acc =>
     match it.splitOn ":" with
-    | ["i", r, c, t] => do
-      let c ← parseNat? c; let t ← parseNat? t
-      let res ← (if r = "r" then some true else if r = "u" then some false else none)
-      parseItems rest { acc with ins := acc.ins ++ [⟨res, c, t⟩] }
-    | ["o", c, t] => do
-      let c ← parseNat? c; let t ← parseNat? t
-      parseItems rest { acc with outs := acc.outs ++ [⟨c, t⟩] }
+    | ["i", r, c, b] => do
+      let c ← parseNat? c; let b ← parseBundle b; let res ← parseRes r
+      parseItems rest { acc with ins := acc.ins ++ [⟨res, c, b⟩] }
+    | ["k", r, c] => do
+      let c ← parseNat? c; let res ← parseRes r
+      parseItems rest { acc with coll := acc.coll ++ [⟨res, c, []⟩] }
+    | ["kr", c] => do
+      let c ← parseNat? c
+      parseItems rest { acc with collRet := some ⟨c, []⟩ }
+    | ["kt", c] => do
+      let c ← parseNat? c
+      parseItems rest { acc with totalColl := some c }
+    | ["o", c, b] => do
+      let c ← parseNat? c; let b ← parseBundle b
+      parseItems rest { acc with outs := acc.outs ++ [⟨c, b⟩] }
+    | ["m", b] => do
+      let m ← parseMint b
+      if acc.mint.isSome || m.any (fun e => e.2 > 9223372036854775807 || e.2 < -9223372036854775808) then none
+      else parseItems rest { acc with mint := some m }
     | ["w", a] => do
       let a ← parseNat? a
       parseItems rest { acc with wds := acc.wds ++ [a] }
@@ -63,31 +101,39 @@ def legacy : Cert → Bool
 
 def handle (line : String) : GV.Line.Out :=
   match tokens line with
-  | "vc" :: era :: kd :: pd :: dd :: fee :: mint :: zmint :: don :: items =>
-    match eraIdx era, parseNat? kd, parseNat? pd, parseNat? dd, parseNat? fee, parseInt? mint,
-          parseInt? zmint, parseNat? don, parseItems items {} with
-    | some era, some kd, some pd, some dd, some fee, some mint, some zmint, some don, some acc =>
-      let t : Tx := { era, kd, pd, dd, fee, mint, zmint, don, ins := acc.ins, outs := acc.outs,
-                      wds := acc.wds, certs := acc.certs, props := acc.props }
+  | "vc" :: era :: valid :: kd :: pd :: dd :: fee :: don :: items =>
+    match eraIdx era, parseBool? valid, parseNat? kd, parseNat? pd, parseNat? dd, parseNat? fee,
+          parseNat? don, parseItems items {} with
+    | some era, some valid, some kd, some pd, some dd, some fee, some don, some acc =>
+      let mint := acc.mint.getD []
+      -- the mint field prunes explicit zeros; a pruned entry is no entry
+      let t : Tx := { era, kd, pd, dd, fee, mint := mint.filter (fun e => e.2 ≠ 0), don,
+                      ins := acc.ins.map (fun i => { i with toks := i.toks.filter (fun e => e.2 ≠ 0) }),
+                      outs := acc.outs.map (fun o => { o with toks := o.toks.filter (fun e => e.2 ≠ 0) }),
+                      wds := acc.wds, certs := acc.certs, props := acc.props,
+                      valid, coll := acc.coll, collRet := acc.collRet, totalColl := acc.totalColl }
       -- shapes the era cannot express
-      if era ≤ 2 && (mint ≠ 0 || zmint ≠ 0 || acc.outs.any (·.tok ≠ 0) || acc.ins.any (·.tok ≠ 0)) then badOp
+      if era ≤ 2 && (!(ids t).isEmpty || acc.mint.isSome) then badOp
       else if era ≤ 5 && (!(acc.certs.all legacy) || !acc.props.isEmpty || don ≠ 0) then badOp
+      else if era ≤ 3 && (!valid || !acc.coll.isEmpty) then badOp
+      else if era ≤ 4 && (acc.collRet.isSome || acc.totalColl.isSome) then badOp
+      -- a Dijkstra transaction cannot encode is_valid = false
+      else if era = 7 && !valid then { model := "decode-err", spec := "*" }
       else
       let v := match rule t with
         | .ok => "ok" | .notConserved => "vnc" | .badDeposit => "baddep"
-      let model := s!"vc={v} bad={boolStr (badInputs t)}"
+      let model := s!"vc={v} bad={boolStr (badInputs t)} dep={boolStr (certDepositsBad t)}"
       -- spec: the ledger formula. An unresolvable input must be rejected by some rule;
-      -- otherwise a balance that is not conserved must be rejected by this rule.
+      -- otherwise a balance that is not conserved must be rejected by one of the rules.
       let spec :=
-        if badInputs t then "vc=ok bad=1||vc=vnc bad=1||vc=baddep bad=1"
-        else if !specConserved t then "vc=vnc*||vc=baddep*"
+        if badInputs t then "vc=ok bad=1*||vc=vnc bad=1*||vc=baddep bad=1*"
+        else if !specConserved t then "vc=vnc*||vc=baddep*||vc=ok bad=0 dep=1"
         else "*"
       let cls :=
         if clsCertAmount t then "cert-amount"
-        else if clsZeroPolicyMint t then "zero-policy-mint"
-        else if clsDupPool t then "dup-pool-reg" else ""
+        else if clsZeroPolicyMint t then "zero-policy-mint" else ""
       { model := model, spec := spec, cls := cls }
-    | _, _, _, _, _, _, _, _, _ => badOp
+    | _, _, _, _, _, _, _, _ => badOp
   | _ => badOp
 
 end GV.Drv.C27
